@@ -66,6 +66,19 @@ func (re *Regexp) UnmarshalYAML(unmarshal func(any) error) error {
 	return nil
 }
 
+// UnmarshalText shadows the method promoted from the embedded *regexp.Regexp,
+// which the YAML decoder would call on the nil embedded pointer for scalars it
+// does not hand to UnmarshalYAML (a quoted "null" or "~").
+func (re *Regexp) UnmarshalText(text []byte) error {
+	regex, err := regexp.Compile("^(?:" + string(text) + ")$")
+	if err != nil {
+		return err
+	}
+	re.Regexp = regex
+	re.Original = string(text)
+	return nil
+}
+
 // MarshalYAML implements the yaml.Marshaler interface for Regexp.
 func (re Regexp) MarshalYAML() (any, error) {
 	if re.Regexp != nil {
